@@ -206,6 +206,8 @@ func warmHistories(c *core.Ctx) error {
 	}
 	if c.Quick() {
 		hs = lakeh.Sub(hs, 700, c.Seed)
+	} else {
+		hs = lakeh.Sub(hs, 2500, c.Seed)
 	}
 	rp := &lakeh.Replayer{C: c, M: m, Ctx: ctx, Warm: true, OnIssue: warmReport(c, m)}
 	if err := rp.ReplayAll(hs); err != nil {
